@@ -1,7 +1,7 @@
 #!/usr/bin/env python3
 """design_table.py: rewrites the section between the markers <!-- SEEDED-TABLE-BEGIN --> and
 <!-- SEEDED-TABLE-END --> of /verif/DESIGN.md from /verif/seeded/*/meta.json (confirmed changes) and
-/verif/scratch/screen{2,3}/ (changes screened but not, or not yet, confirmed with a full-suite run)."""
+/verif/seeding/screen-round{2,3}/ (changes screened but not, or not yet, confirmed with a full-suite run)."""
 import glob, json, os, re
 
 # what had to be strengthened before the check caught the change (first screening missed it)
